@@ -3,6 +3,7 @@ package main
 import (
 	"fmt"
 	"math"
+	"runtime/debug"
 	"sort"
 	"strconv"
 	"strings"
@@ -137,6 +138,7 @@ type Result struct {
 	ByID     map[int][][][]Pt // integer pixel centres
 	NotCentre []string        // returned floats that are not the image of a pixel centre
 	Dur      time.Duration
+	Stack    string // goroutine stack at the panic
 }
 
 func classifyPanic(r any) (string, string) {
@@ -199,6 +201,7 @@ func runSnapFloat(g *Grid, fp geom.Polygon, ids []int, cfg snap.Config, timeout 
 		defer func() {
 			if r := recover(); r != nil {
 				res.Panic, res.PanicMsg = classifyPanic(r)
+				res.Stack = string(debug.Stack())
 			}
 		}()
 		idsCopy := append([]int(nil), ids...)
